@@ -25,39 +25,52 @@ REPO = os.environ.get("VERIF_REPO", "/repo")
 META = {
     "bounds": {
         "quick": {"O1 embedded tx": "PSBT.create on transactions with 1..2 inputs x 1..2 outputs, segwit flag False/True, every field "
-                                    "symbolic (version, outpoints, sequences, amounts, locktime); the parse route with a symbolic "
-                                    "1-byte scriptSig; finalised transactions of the six wallet kinds fed back to PSBT.create",
-                  "O2 round trip": "every parseable PSBT vector of buidl/test/test_psbt.py + test_psbt_helper.py (tx fields symbolic when "
-                                   "the vector carries no signature; hash_type fields and unknown values symbolic always); six wallet kinds "
-                                   "(1-of-1 / 2-of-3, 1 input, 2 outputs incl. change metadata) x stage {updated, symbolic partial sigs, "
-                                   "real partial sigs, finalised} x UTXO records {as written by update, witness+non-witness} x global xpubs, "
-                                   "unknown pairs of value length {0, 2} in the global/input/output maps",
-                  "O3 combiner": "PSBTIn / PSBTOut / PSBT.combine: commutative, associative, idempotent on the serialisation; field "
-                                 "presence enumerated through symbolic booleans per coupled field group (UTXO records; signatures + "
-                                 "scripts; sighash/final fields; derivations + unknowns), remaining fields absent or all present; values "
-                                 "symbolic and shared between operands (equal keys carry equal values)",
+                                    "symbolic (version, outpoints, sequences, amounts, locktime); the parse route with one symbolic "
+                                    "scriptSig byte; the signed transactions of the wallet flows fed back to PSBT.create (in O4)",
+                  "O2 round trip": "every parseable PSBT vector of at most 1400 bytes in buidl/test/test_psbt.py + test_psbt_helper.py (tx fields "
+                                   "symbolic when the vector carries no signature; hash_type fields, unknown values and six added unknown "
+                                   "pairs symbolic always); six wallet kinds (1-of-1 / 2-of-3, 1 input, payment + change output with "
+                                   "derivation metadata) x stage {updated, ideal symbolic partial signatures, real partial signatures, "
+                                   "finalised} x UTXO records {as written by update, witness + non-witness} x global xpubs, unknown pairs "
+                                   "with value length {0, 2} in the global / input / output maps",
+                  "O3 combiner": "PSBTIn / PSBTOut / PSBT.combine commutative, idempotent, associative on the serialisation (2-of-2 P2SH, "
+                                 "P2WSH, P2SH-P2WSH); field presence per operand through symbolic booleans, jointly within each group of "
+                                 "fields that the serialiser couples (UTXO records; signatures + scripts; sighash type + final scripts; "
+                                 "derivations + unknowns; 3 fields per group for associativity), the other fields all absent or all "
+                                 "present; values symbolic and shared between the operands (equal keys carry equal values)",
                   "O4 threshold": "six wallet kinds, every 1 <= m <= n <= 3 for the multisig kinds, 1 input (2 inputs for 2-of-2, 3 inputs "
-                                  "for P2WPKH), symbolic subset of signers, every permutation of sequential signing and of combining "
-                                  "separately signed copies (left fold and one right-nested tree), real signatures",
-                  "O5 invalid signature": "six wallet kinds x UTXO records {as written by update, witness+non-witness}; one partial "
-                                          "signature with symbolic r, s (DER shape of the genuine signature) and symbolic sighash byte"},
-        "thorough": {"O1 embedded tx": "1..3 inputs x 1..3 outputs", "O2 round trip": "as quick, plus 2 inputs and 3-of-3",
-                     "O3 combiner": "same groups", "O4 threshold": "as quick, plus 2 inputs for every (m, n)",
-                     "O5 invalid signature": "as quick, plus two symbolic signatures"}},
+                                  "for P2WPKH), symbolic subset of signers; every permutation of sequential signing, of combining "
+                                  "separately signed copies (into an unsigned copy and into the first signed copy) and one right-nested "
+                                  "combine tree; real signatures; global xpubs for n = 2",
+                  "O5 invalid signature": "six wallet kinds (1-of-1 / 2-of-2) x UTXO records {as written by update, witness + non-witness}; "
+                                          "one partial signature with symbolic r, s (DER shape of the genuine signature), sighash byte in "
+                                          "{0, 1, 2, 3, 0x41, 0x81, 0x82, 0x83, 0xff}"},
+        "thorough": {"O1 embedded tx": "1..3 inputs x 1..3 outputs", "O2 round trip": "all vectors; plus 3-of-3 with 2 inputs, every stage",
+                     "O3 combiner": "same groups", "O4 threshold": "as quick, plus 2 inputs for every (m, n) with n > 1 and 3 inputs for every single-key kind",
+                     "O5 invalid signature": "as quick, plus two symbolic signatures on the 2-of-2 wallets"}},
     "outside": ["n = 4 cosigners and 3-input multisig wallets (cost only: the flows are the same code paths)",
                 "partial signatures on inputs that carry no UTXO record: nothing to verify them against, the library accepts them "
                 "unverified (read as 'cannot be verified', not as 'does not verify')",
                 "inputs whose UTXO record type contradicts their script type (witness UTXO on a bare P2SH multisig input)",
                 "the lookup logic of update() beyond the six standard wallet kinds; taproot PSBT fields (unsupported by the library)",
-                "combine() of PSBTs whose equal keys carry different values (result depends on the order by design)",
-                "multisig scripts that repeat a public key",
-                "DER parsing strictness and ECDSA itself (C01/C02): Valid(pubkey, z, r, s) is uninterpreted on symbolic arguments"],
+                "combine() of PSBTs whose equal keys carry different values (result depends on the order by design); operands whose "
+                "field combination the PSBTIn/PSBTOut constructor itself refuses",
+                "multisig scripts that repeat a public key (the serialiser then writes the same partial-signature key twice and the "
+                "parser refuses the duplicate)",
+                "byte layout of the PSBT maps against BIP174 beyond the embedded transaction: (a) is a re-serialisation property; "
+                "that serialize(parse(raw)) == raw for third-party raw bytes is not claimed (the serialiser drops what it does not keep)",
+                "DER parsing strictness and ECDSA itself (C01/C02): Valid(pubkey, z, r, s) is uninterpreted on symbolic arguments",
+                "sighash digests for hash types other than SIGHASH_ALL are the library's own routines (C05); only *which* digest a "
+                "partial signature is checked against is judged here"],
     "stubs": ["S256Point.verify = Valid(pubkey, z, r, s) uninterpreted when an argument is symbolic, the real routine (memoised) otherwise",
-              "S256Point.__rmul__, PrivateKey.sign, HDPrivateKey.child memoised on their concrete arguments", "sha256/ripemd160 uninterpreted on symbolic input",
-              "print() empty"],
-    "assumptions": ["the digest committed to by a signature whose sighash byte is not SIGHASH_ALL differs from the SIGHASH_ALL digest "
+              "S256Point.__rmul__, PrivateKey.sign, HDPrivateKey.child memoised on their concrete arguments",
+              "sha256/ripemd160 uninterpreted on symbolic input", "print() empty"],
+    "assumptions": ["ideal signatures in the symbolic-signature stage of O2: the signature bytes satisfy Valid for the digest that PSBT.sign "
+                    "computes for that input (the library's own choice between the BIP143 and the legacy digest)",
+                    "the digest committed to by a signature whose sighash byte is not SIGHASH_ALL differs from the SIGHASH_ALL digest "
                     "(the 4-byte hash type is part of the hashed preimage; collision resistance)",
-                    "replays substitute real signatures (made with the fixed wallet keys) for signature bytes that a path assumed Valid"],
+                    "replays substitute real signatures (made with the fixed wallet keys) for signature bytes that a path assumed Valid, "
+                    "and a genuine signature with one bit of s flipped for bytes a path assumed invalid"],
 }
 
 MANIFEST = {"technique": "symbolic execution of the real PSBT parser / serialiser / combiner / finaliser on concrete wallets with symbolic "
@@ -127,7 +140,7 @@ def _install(M):
                 vcache[k] = bool(real_verify(self, z, sig))
             return vcache[k]
         ok = bool(valid_pred(self.sec(), z, r, s))
-        VALID_LOG.append(ok)
+        VALID_LOG.append((ok, self.sec(), z))
         return ok
     P.verify = verify
 
@@ -346,7 +359,7 @@ def build_lenient(M, kind, m, n, n_in, F, xpub=False):
     try:
         return build(M, kind, m, n, n_in, F, xpub), None
     except Exception as e:
-        return build(M, kind, m, n, n_in, F, xpub, validate=False), f"{type(e).__name__}: {(str(e).strip().splitlines() or [""])[0][:80]}"
+        return build(M, kind, m, n, n_in, F, xpub, validate=False), "PSBT.create(validate=True) raises " + _msg(e)
 
 
 def add_both_utxos(M, p, kind, m, n, F):
@@ -509,7 +522,7 @@ def _embedded_scriptsig_path(n_in):
 
 
 def ob_embedded(n_in, n_out, segwit):
-    runs = [sym_run(lambda: _embedded_create_path(n_in, n_out, segwit), max_violations=6)]
+    runs = [sym_run(lambda: _embedded_create_path(n_in, n_out, segwit), max_violations=2)]
     if not segwit and n_out == 1:
         runs.append(sym_run(lambda: _embedded_scriptsig_path(n_in), expect_classes=["refused"]))
     m = merge_runs(runs)
@@ -592,7 +605,10 @@ def make_wallet_psbt(M, val, kind, m, n, n_in, stage, utxo, xpub, unk_len):
     if real:
         sign_first(M, p, n, m if stage == "final" else max(1, m - 1))
         if stage == "final":
-            p.finalize()
+            try:
+                p.finalize()
+            except Exception as e:
+                err = err or ("finalize() with the required number of genuine signatures raises " + _msg(e))
     apply_fields(M, p, val, edit_tx=not real and utxo != "both", add_ht=(stage != "final"), unk_len=unk_len)
     if stage == "symsig":
         for k, pi in enumerate(p.psbt_ins):
@@ -601,6 +617,7 @@ def make_wallet_psbt(M, val, kind, m, n, n_in, stage, utxo, xpub, unk_len):
                 if isinstance(val, ConcVals):
                     continue  # the replay signs for real below
                 der = sym_der(val, f"in{k}.sig{i}")
+                der = der[:len(der) - 1] + bytes([SIGHASH_ALL])
                 # a genuine signature by cosigner i over the digest the signer computes (ideal signature)
                 core.assume(valid_pred(sec, signer_digest(p, k), core.int_from_bytes(der[4:36]), core.int_from_bytes(der[38:70])))
                 pi.sigs[sec] = der
@@ -610,8 +627,7 @@ def make_wallet_psbt(M, val, kind, m, n, n_in, stage, utxo, xpub, unk_len):
             for k, pi in enumerate(p.psbt_ins):
                 for i in range(max(1, m - 1)):
                     sec = named(M, i, "m/0/%d" % k).sec()
-                    sb = val(f"in{k}.sig{i}.sighash", 1)
-                    pi.sigs[sec] = pi.sigs[sec][:-1] + bytes([sb])
+                    pi.sigs[sec] = pi.sigs[sec][:-1] + bytes([SIGHASH_ALL])
     return p, err
 
 
@@ -623,7 +639,7 @@ def _roundtrip_wallet_path(kind, m, n, n_in, stage, utxo, xpub, unk_len):
     w = lambda env: {"source": "wallet", "shape": shape, "vals": val.witness(env)}  # noqa
     p, err = make_wallet_psbt(M, val, kind, m, n, n_in, stage, utxo, xpub, unk_len)
     if err is not None:
-        check(False, "PSBT.create(validate=True) refuses a consistent wallet: " + err, witness=w)
+        check(False, "wallet flow refused: " + err, witness=w)
     # signatures are genuine by assumption: nothing may be refused
     verdict, detail, _ = roundtrip_judge(M, p, lambda: False)
     return _finish_roundtrip(verdict, detail, w)
@@ -635,7 +651,7 @@ def ob_roundtrip_wallet(kind, m, n, n_in, stages, utxos, xpub, unk_lens):
         for utxo in utxos:
             for unk_len in unk_lens:
                 expect = ["ok"]
-                r = sym_run(lambda: _roundtrip_wallet_path(kind, m, n, n_in, stage, utxo, xpub, unk_len), max_violations=4, timeout_ms=60000)
+                r = sym_run(lambda: _roundtrip_wallet_path(kind, m, n, n_in, stage, utxo, xpub, unk_len), max_violations=2, timeout_ms=60000)
                 # reachability twin only where the shape is expected to load at all on a correct library
                 if not r["violations"]:
                     for e in expect:
@@ -655,8 +671,8 @@ def replay_roundtrip(w):
         s = w["shape"]
         p, err = make_wallet_psbt(M, val, s["kind"], s["m"], s["n"], s["n_in"], s["stage"], s["utxo"], s["xpub"], s["unk_len"])
         what = f"{s['kind']} {s['m']}-of-{s['n']} stage={s['stage']} utxo={s['utxo']}"
-        if err is not None and "create" in (w.get("label") or ""):
-            return {"violated": True, "observed": f"{what}: PSBT.create(validate=True) raised {err}"}
+        if err is not None and "wallet flow refused" in (w.get("label") or ""):
+            return {"violated": True, "observed": f"{what}: {err}"}
     else:
         p = M.psbt.PSBT.parse(M.BytesIO(bytes.fromhex(w["vector"])))
         apply_fields(M, p, val, edit_tx=w["edit_tx"], unk_len=w["unk_len"])
@@ -698,7 +714,7 @@ def _roundtrip_vector_path(hexraw, edit_tx, unk_len):
 def ob_roundtrip_vectors(chunk, of, maxlen):
     N = mods(True)
     vecs = [h for i, h in enumerate(repo_vectors()) if i % of == chunk and len(h) // 2 <= maxlen]
-    runs, used, shapes = [], 0, set()
+    runs, used = [], 0
     for h in vecs:
         try:
             p = N.psbt.PSBT.parse(N.BytesIO(bytes.fromhex(h)))
@@ -706,13 +722,11 @@ def ob_roundtrip_vectors(chunk, of, maxlen):
             continue  # the negative vectors of the suite
         has_sig = any(i.sigs or i.script_sig is not None or i.witness is not None for i in p.psbt_ins)
         used += 1
-        r = sym_run(lambda: _roundtrip_vector_path(h, not has_sig, 2), expect_classes=["ok"], max_violations=4, timeout_ms=60000)
+        r = sym_run(lambda: _roundtrip_vector_path(h, not has_sig, 2), expect_classes=["ok"], max_violations=2, timeout_ms=60000)
         runs.append(r)
     if not runs:
-        r = {"engine": "symx/bv", "stats": core.Stats().asdict(), "classes": {}, "violations": [], "wall_s": 0, "symbolic": True, "vars": [],
-             "inconclusive": [] if of > len(repo_vectors()) and repo_vectors() else ["no parseable PSBT vector found in the repository's tests"]}
-        r["sample"] = {"vectors": 0}
-        return r
+        return {"engine": "symx/bv", "stats": core.Stats().asdict(), "classes": {}, "violations": [], "wall_s": 0, "symbolic": True, "vars": [],
+                "inconclusive": ["no parseable PSBT vector in this chunk of the repository's test vectors"], "sample": {"vectors": 0}}
     m = merge_runs(runs)
     m["sample"] = {"vectors_in_chunk": used, "symbolic": "tx fields (vectors without signatures), hash_type fields, unknown values, added unknown pairs"}
     return m
@@ -973,7 +987,7 @@ def workflow(M, kind, m, n, n_in, subset, sections=ALL_SECTIONS):
     P = M.psbt.PSBT
     base, err = build_lenient(M, kind, m, n, n_in, F, xpub=(n == 2))
     if err is not None:
-        J.append(("create", "PSBT.create(validate=True) refuses a consistent wallet: " + err, False))
+        J.append(("create", "wallet flow refused: " + err, False))
     raw0 = base.serialize()
     rs = roots(M, n)
     signers = [i for i in range(n) if subset[i]]
@@ -1165,7 +1179,8 @@ def make_signed_raw(M, kind, m, n, utxo, nsym):
         first = spec_varstr(b"\x00") + spec_varstr(pi.prev_tx.serialize())
         assert raw[ins_start:ins_start + len(first)] == first
         extra = spec_varstr(b"\x01") + spec_varstr(pi.prev_out.serialize())
-        raw = raw[:ins_start + len(first)] + extra + raw[ins_start + len(first):]
+        if raw[ins_start + len(first):ins_start + len(first) + len(extra)] != extra:
+            raw = raw[:ins_start + len(first)] + extra + raw[ins_start + len(first):]
     else:
         raw = p.serialize()
     locs = []
@@ -1186,7 +1201,10 @@ def digest_for(M, p, kind, hash_type):
     return p.tx_obj.sig_hash_legacy(0, pi.redeem_script, hash_type=hash_type)
 
 
-def _badsig_path(kind, m, n, utxo, nsym, sym_sighash):
+SIGHASH_BYTES = (0, 1, 2, 3, 0x81, 0x82, 0x83, 0x41, 0xFF)
+
+
+def _badsig_path(kind, m, n, utxo, nsym):
     M = mods()
     del VALID_LOG[:]
     val = SymVals()
@@ -1195,71 +1213,75 @@ def _badsig_path(kind, m, n, utxo, nsym, sym_sighash):
     for (i, off, sig) in locs:
         rl, sl = sig[3], sig[5 + sig[3]]
         s = sym_der(val, f"sig{i}", rl, sl)
-        if not sym_sighash:
-            s = s[:len(s) - 1] + bytes([SIGHASH_ALL])
-            sbs.append(SIGHASH_ALL)
-        else:
-            sbs.append(val.made[f"sig{i}.sighash"])
+        sb = val.made[f"sig{i}.sighash"]
+        core.assume(core.s_or(*[sb == v for v in SIGHASH_BYTES]))
+        sbv = core.concretize(sb)  # one path per sighash byte: the digests stay concrete
+        sbs.append(sbv)
+        s = s[:len(s) - 1] + bytes([sbv])
         assert len(s) == len(sig)
         pieces += [raw[pos:off], s]
         pos = off + len(sig)
     sraw = pieces[0]
     for x in pieces[1:] + [raw[pos:]]:
         sraw = sraw + x
-    w = lambda env: {"kind": kind, "m": m, "n": n, "utxo": utxo, "nsym": nsym,  # noqa
-                     "sighash": [conc_value(b, env) for b in sbs], "valid": None, "vals": val.witness(env)}
     try:
         M.psbt.PSBT.parse(M.BytesIO(sraw))
         accepted = True
     except Exception:
         accepted = False
-    # oracle: every partial signature verifies for the digest selected by its own sighash byte
-    all_decided_valid = all(VALID_LOG) and len(VALID_LOG) >= 1
+    # which signatures did this path take to be invalid (Valid decided false, or never asked)
+    forged = [not any(ok and lsec == named(M, i, "m/0/0").sec() for (ok, lsec, _) in VALID_LOG) for (i, _, _) in locs]
+    w = lambda env: {"kind": kind, "m": m, "n": n, "utxo": utxo, "nsym": nsym, "sighash": list(sbs), "forged": forged, "vals": val.witness(env)}  # noqa
     if accepted:
-        check(len(VALID_LOG) >= nsym, "a PSBT with partial signatures is accepted without verifying each of them", witness=w)
-        if sym_sighash:
-            # Valid was decided for the SIGHASH_ALL digest; for any other sighash byte the committed digest is a different one
-            check(core.s_and(*[b == SIGHASH_ALL for b in sbs]),
-                  "partial signature accepted on the SIGHASH_ALL digest although its sighash byte selects another digest", witness=w)
+        # oracle: each partial signature was found valid for the digest that its own sighash byte selects
+        for (i, off, sig), sbv in zip(locs, sbs):
+            sec = named(M, i, "m/0/0").sec()
+            z = digest_for(M, p, kind, sbv)
+            check(any(ok and lsec == sec and _plain(lz) and lz == z for (ok, lsec, lz) in VALID_LOG),
+                  "partial signature accepted without a successful check against the digest its sighash byte selects", witness=w)
         return "accepted"
-    if all_decided_valid and len(VALID_LOG) >= nsym:
-        # every signature valid and still refused: only legitimate if the library cannot load this shape at all (reported by O2)
-        return "refused-valid"
+    if VALID_LOG and all(ok for (ok, _, _) in VALID_LOG) and len(VALID_LOG) >= nsym:
+        return "refused-valid"  # refused for another reason (a sighash type the library does not support, or an unloadable shape: O2)
     check(True, "refused with an invalid signature")
     return "rejected"
 
 
 def ob_badsig(kind, m, n, utxo, nsym):
-    runs = [sym_run(lambda: _badsig_path(kind, m, n, utxo, nsym, False), max_violations=4),
-            sym_run(lambda: _badsig_path(kind, m, n, utxo, nsym, True), max_violations=2)]
-    mr = merge_runs(runs)
+    mr = sym_run(lambda: _badsig_path(kind, m, n, utxo, nsym), max_violations=2)
     if "'rejected'" not in mr["classes"]:
         mr["inconclusive"].append("reachability twin: no path on which an invalid signature is refused")
-    if "'accepted'" not in mr["classes"] and "'refused-valid'" not in mr["classes"]:
-        mr["inconclusive"].append("reachability twin: no path with every signature valid")
-    mr["sample"] = {"wallet": f"{kind} {m}-of-{n}", "utxo_records": utxo, "symbolic": f"r, s and sighash byte of {nsym} partial signature(s); Valid uninterpreted"}
+    if "'accepted'" not in mr["classes"]:
+        mr["inconclusive"].append("reachability twin: no path on which valid signatures are accepted")
+    mr["sample"] = {"wallet": f"{kind} {m}-of-{n}", "utxo_records": utxo,
+                    "symbolic": f"r, s of {nsym} partial signature(s) (Valid uninterpreted); sighash byte in {list(SIGHASH_BYTES)}"}
     return mr
 
 
 def replay_badsig(w):
-    """a genuine signature with the witness' sighash byte: does it verify for the digest that byte selects, and is it accepted?"""
+    """genuine signatures with the witness' sighash bytes (one bit of s flipped where the path took the signature to be invalid):
+    do they verify for the digest their sighash byte selects, and is the PSBT accepted?"""
     M = mods(True)
     raw, locs, p = make_signed_raw(M, w["kind"], w["m"], w["n"], w["utxo"], w["nsym"])
     raw = bytearray(raw)
     verifies = True
-    for (i, off, sig), sb in zip(locs, w["sighash"]):
-        raw[off + len(sig) - 1] = sb
+    for (i, off, sig), sb, forged in zip(locs, w["sighash"], w.get("forged") or [False] * len(locs)):
+        sig = bytearray(sig)
+        sig[-1] = sb
+        if forged:
+            sig[-2] ^= 1  # last byte of s
+        raw[off:off + len(sig)] = sig
         z = digest_for(M, p, w["kind"], sb)
         point = named(M, i, "m/0/0").point
-        verifies = verifies and bool(point.verify(z, M.ecc.Signature.parse(sig[:-1])))
+        verifies = verifies and bool(point.verify(z, M.ecc.Signature.parse(bytes(sig[:-1]))))
     try:
         M.psbt.PSBT.parse(M.BytesIO(bytes(raw)))
         accepted = True
-    except Exception as e:
+    except Exception:
         accepted = False
     return {"violated": accepted and not verifies,
-            "observed": f"{w['kind']} utxo={w['utxo']}: genuine SIGHASH_ALL signature relabelled with sighash byte {w['sighash']}: "
-                        f"verifies for that digest={verifies}, accepted at load={accepted}"}
+            "observed": f"{w['kind']} utxo={w['utxo']}: partial signature(s) = genuine SIGHASH_ALL signature(s) with sighash byte {w['sighash']}"
+                        f"{' and one bit of s flipped' if any(w.get('forged') or []) else ''}: verifies for the digest of that sighash byte={verifies}, "
+                        f"accepted at load={accepted}"}
 
 
 # ---------------------------------------------------------------------------------------- registry
@@ -1288,21 +1310,26 @@ def obligations(tier):
     for kind in ("p2sh", "p2wsh", "p2sh-p2wsh"):
         for law in ("comm", "idem", "assoc"):
             if law == "assoc":
+                if kind == "p2wsh":
+                    continue  # same serialiser branch (witness script order) as p2sh-p2wsh, which carries every field
                 groups = [("prev_tx", "prev_out"), ("sig0", "sig1", "witness_script"), ("sig0", "redeem_script", "witness_script"),
-                          ("hash_type", "script_sig", "witness"), ("pub0", "pub1", "unk0"), ("pub0", "unk0", "unk1")]
+                          ("hash_type", "script_sig", "witness"), ("pub0", "pub1", "unk0")]
             else:
                 groups = list(IN_GROUPS.values())
             obs.append(Ob("O3-combine-in", ob_combine, {"level": "in", "kind": kind, "law": law, "groups": tuple(groups),
                                                        "backgrounds": ("empty", "full")}, replay="combine", budget_s=900))
     for law in ("comm", "idem", "assoc"):
-        groups = [OUT_FIELDS] if law != "assoc" else [("redeem_script", "witness_script", "pub0"), ("pub0", "pub1", "unk0"), ("pub1", "unk0", "unk1")]
+        groups = {"comm": [("redeem_script", "witness_script", "pub0", "pub1"), ("pub0", "pub1", "unk0", "unk1")], "idem": [OUT_FIELDS],
+                  "assoc": [("redeem_script", "witness_script", "pub0"), ("pub0", "pub1", "unk0"), ("pub1", "unk0", "unk1")]}[law]
         obs.append(Ob("O3-combine-out", ob_combine, {"level": "out", "kind": "p2sh-p2wsh", "law": law, "groups": tuple(groups),
-                                                    "backgrounds": ("empty", "full")}, replay="combine", budget_s=900))
+                                                    "backgrounds": ("empty", "full") if law != "idem" else ("empty",)}, replay="combine", budget_s=900))
     for kind in ("p2wsh", "p2sh"):
-        obs.append(Ob("O3-combine-psbt", ob_combine_psbt, {"kind": kind, "law": "comm", "bitsets": (PSBT_BITS[:5], PSBT_BITS[3:])}, replay="combine", budget_s=900))
-        obs.append(Ob("O3-combine-psbt", ob_combine_psbt, {"kind": kind, "law": "idem", "bitsets": (PSBT_BITS,)}, replay="combine", budget_s=900))
-        obs.append(Ob("O3-combine-psbt", ob_combine_psbt, {"kind": kind, "law": "assoc", "bitsets": (("xpub0", "gunk0", "in.ht"), ("xpub1", "in.pub0", "out.pub1"),
-                                                                                                  ("gunk1", "out.unk0", "xpub0"))}, replay="combine", budget_s=900))
+        obs.append(Ob("O3-combine-psbt", ob_combine_psbt, {"kind": kind, "law": "comm", "bitsets": (("xpub0", "xpub1", "gunk0", "gunk1"),
+                                                                                                 ("gunk1", "in.ht", "in.pub0", "out.unk0"),
+                                                                                                 ("in.ht", "out.unk0", "out.pub1"))}, replay="combine", budget_s=900))
+    obs.append(Ob("O3-combine-psbt", ob_combine_psbt, {"kind": "p2wsh", "law": "idem", "bitsets": (PSBT_BITS,)}, replay="combine", budget_s=900))
+    obs.append(Ob("O3-combine-psbt", ob_combine_psbt, {"kind": "p2wsh", "law": "assoc", "bitsets": (("xpub0", "gunk0", "in.ht"), ("xpub1", "in.pub0", "out.pub1"))},
+                  replay="combine", budget_s=900))
     for kind in KINDS:
         if kind in SINGLE:
             obs.append(Ob("O4-threshold", ob_threshold, {"kind": kind, "m": 1, "n": 1, "n_in": 1, "create_back": True}, replay="threshold", budget_s=900))
